@@ -5,7 +5,6 @@ import (
 	"go/ast"
 	"go/token"
 	"go/types"
-	"path/filepath"
 	"strings"
 )
 
@@ -39,21 +38,6 @@ type bfCtx struct {
 	mode     string   // "fields" | "bytes" | "written"
 	leanOf   map[string]string
 	fieldTys map[string]ity
-}
-
-func bytefuncsToLean(repo string, sb *strings.Builder) {
-	pkgs := map[string]*Pkg{}
-	for _, bf := range byteFuncs {
-		p := pkgs[bf.pkg]
-		if p == nil {
-			p = load(filepath.Join(repo, bf.pkg))
-			pkgs[bf.pkg] = p
-		}
-		fd := findFunc(p, bf.name)
-		g := &g2l{p: p, sb: sb, fn: bf.name, vars: map[string]string{}}
-		c := &bfCtx{g: g, leanOf: map[string]string{}, fieldTys: map[string]ity{}}
-		c.function(fd, bf.lean)
-	}
 }
 
 func (c *bfCtx) structFields(t types.Type, v string, n ast.Node) []string {
